@@ -212,11 +212,13 @@ package memory
 //@   ensures always-continues: cont
 //@   ensures empty-record-is-skipped: emptyRec(v) ==> keys == old(keys)
 //@   ensures appends-one-entry: !emptyRec(v) ==> (len(keys) == old(len(keys)) + 1 && fresh(keys[old(len(keys))]) && allocated(keys[old(len(keys))]) && str(keys[old(len(keys))]) == key)
+//@   ensures new-entries-name-this-key: forall a int {keys[a]} :: (old(len(keys)) <= a && a < len(keys)) ==> (!emptyRec(v) && fresh(keys[a]) && allocated(keys[a]) && str(keys[a]) == key)
 //@   ensures earlier-entries-kept: len(keys) >= old(len(keys)) && (forall a int {keys[a]} :: 0 <= a && a < old(len(keys)) ==> keys[a] == old(keys[a]))
 //@   ensures backing-kept-or-fresh: sameBacking(keys, old(keys)) || fresh(keys)
 //@   ensures existing-bytes-untouched: keptArrays("byte")
 
 //@ func (m *MemoryKV) RangeKeys(ctx context.Context, low, high uint64) (r [][]byte, err error)
+//@   opt strings=abstract
 //@   opt puredyn=content
 //@   opt frame=off
 //@   opt opaque=between48,dist48
@@ -233,6 +235,7 @@ package memory
 
 // second contract of RangeKeys: completeness (every key in range is listed), with a ghost position witness
 //@ func (m *MemoryKV) RangeKeys@complete(ctx context.Context, low, high uint64) (r [][]byte, err error)
+//@   opt strings=abstract
 //@   opt puredyn=content
 //@   opt frame=off
 //@   opt opaque=between48,dist48
@@ -260,11 +263,11 @@ package memory
 //@   ensures other-prefix-adds-nothing: !hasPrefix(key, str(prefix)) ==> keys == old(keys)
 //@   ensures earlier-entries-kept: len(keys) >= old(len(keys)) && (forall a int {keys[a]} :: 0 <= a && a < old(len(keys)) ==> keys[a] == old(keys[a]))
 //@   ensures one-entry-per-kind-present: hasPrefix(key, str(prefix)) ==> len(keys) == old(len(keys)) + nSimple(v) + nPrefix(v) + nLease(v)
-//@   ensures new-entries-name-this-key: forall a int :: (old(len(keys)) <= a && a < len(keys)) ==> (keys[a] != nil && fresh(keys[a]) && allocated(keys[a]) && fresh(keys[a].Key) && allocated(keys[a].Key) && str(keys[a].Key) == key)
+//@   ensures new-entries-name-this-key: forall a int {keys[a]} :: (old(len(keys)) <= a && a < len(keys)) ==> (hasPrefix(key, str(prefix)) && keys[a] != nil && fresh(keys[a]) && allocated(keys[a]) && fresh(keys[a].Key) && allocated(keys[a].Key) && str(keys[a].Key) == key)
 //@   ensures simple-entry-first: (hasPrefix(key, str(prefix)) && nSimple(v) == 1) ==> keys[old(len(keys))].Type == protocol.KeyComposite_SIMPLE
 //@   ensures prefix-entry-next: (hasPrefix(key, str(prefix)) && nPrefix(v) == 1) ==> keys[old(len(keys)) + nSimple(v)].Type == protocol.KeyComposite_PREFIX
 //@   ensures lease-entry-last: (hasPrefix(key, str(prefix)) && nLease(v) == 1) ==> keys[old(len(keys)) + nSimple(v) + nPrefix(v)].Type == protocol.KeyComposite_LEASE
-//@   ensures only-kinds-that-are-present: forall a int :: (old(len(keys)) <= a && a < len(keys)) ==> ((keys[a].Type == protocol.KeyComposite_SIMPLE && nSimple(v) == 1) || (keys[a].Type == protocol.KeyComposite_PREFIX && nPrefix(v) == 1) || (keys[a].Type == protocol.KeyComposite_LEASE && nLease(v) == 1))
+//@   ensures only-kinds-that-are-present: forall a int {keys[a]} :: (old(len(keys)) <= a && a < len(keys)) ==> ((keys[a].Type == protocol.KeyComposite_SIMPLE && nSimple(v) == 1) || (keys[a].Type == protocol.KeyComposite_PREFIX && nPrefix(v) == 1) || (keys[a].Type == protocol.KeyComposite_LEASE && nLease(v) == 1))
 //@   ensures backing-kept-or-fresh: sameBacking(keys, old(keys)) || fresh(keys)
 //@   ensures existing-entries-untouched: (forall e *protocol.KeyComposite {e.Type} :: !fresh(e) ==> e.Type == old(e.Type)) && (forall e *protocol.KeyComposite {e.Key} :: !fresh(e) ==> e.Key == old(e.Key)) && keptArrays("byte")
 //@   ensures store-untouched: prefix == old(prefix)
@@ -276,6 +279,7 @@ package memory
 //@      && (e.Type == protocol.KeyComposite_SIMPLE || e.Type == protocol.KeyComposite_PREFIX || e.Type == protocol.KeyComposite_LEASE)
 
 //@ func (m *MemoryKV) ListKeys(ctx context.Context, prefix []byte) (r []*protocol.KeyComposite, err error)
+//@   opt strings=abstract
 //@   opt puredyn=content
 //@   opt frame=off
 //@   requires repCore(m)
@@ -289,6 +293,7 @@ package memory
 
 // second contract: every kind of data present under a stored key with the prefix is listed
 //@ func (m *MemoryKV) ListKeys@complete(ctx context.Context, prefix []byte) (r []*protocol.KeyComposite, err error)
+//@   opt strings=abstract
 //@   opt puredyn=content
 //@   opt frame=off
 //@   requires repCore(m)
@@ -321,6 +326,7 @@ package memory
 //@   ensures the-entry-is-this-child: fresh(children[old(len(children))]) && allocated(children[old(len(children))]) && str(children[old(len(children))]) == value
 //@   ensures backing-kept-or-fresh: sameBacking(children, old(children)) || fresh(children)
 //@   ensures existing-bytes-untouched: keptArrays("byte")
+//@   ensures other-lists-untouched: keptArraysExcept("[]byte", children)
 
 //@ func (m *MemoryKV) PrefixList(ctx context.Context, prefix []byte) (r [][]byte, err error)
 //@   opt puredyn=content
@@ -337,6 +343,7 @@ package memory
 //@   ensures record-contents-untouched: onlyRecordTouched(nil)
 //@   ensures existing-lists-untouched: keptArrays("byte") && keptArrays("[]byte")
 //@   loop call Range#1: invariant own: fresh(children) && 0 <= len(children)
+//@   loop call Range#1: invariant lists-kept: keptArrays("byte") && keptArrays("[]byte")
 
 // second contract of PrefixList: the listing itself (the injectivity part of the invariant is not needed for it)
 //@ func (m *MemoryKV) PrefixList@listing(ctx context.Context, prefix []byte) (r [][]byte, err error)
